@@ -364,8 +364,12 @@ void TopologyKernel::reorder_incident_halffaces(EdgeHandle _eh) {
         }
     }
 
-    // Everything worked just fine, set the new ordered vector
-    if(new_halffaces.size() == incident_hfs.size()) {
+    // Everything worked just fine, set the new ordered vector.
+    // In inconsistent configurations (e.g. after set_face()/set_cell()) the walk
+    // may collect halffaces that are not incident to this edge at all; only a
+    // permutation of the incident halffaces may replace them.
+    if(new_halffaces.size() == incident_hfs.size()
+            && std::is_permutation(new_halffaces.begin(), new_halffaces.end(), incident_hfs.begin())) {
         incident_hfs = std::move(new_halffaces);
         // update incident halffaces of the opposite halfedge:
         std::transform(incident_hfs.rbegin(), incident_hfs.rend(),
